@@ -35,6 +35,7 @@ type Msg struct {
 	From   int    `json:"from"`
 	Params []int  `json:"params,omitempty"`
 	Bad    bool   `json:"bad,omitempty"`
+	At     int    `json:"at,omitempty"` // not delivered earlier than this many ms after the wait of the second attempt began
 }
 
 // Err is an error value: coord | comm | tss | subset | other | join | wrap
@@ -62,6 +63,29 @@ type Case struct {
 	Winner  *int     `json:"winner"`  // bully: an earlier candidate that announces itself; nil = nobody answers
 	Ready2  []int    `json:"ready2"`  // second attempt as coordinator: senders of ready messages
 	Msgs2   []Msg    `json:"msgs2"`   // second attempt otherwise (or waiting): messages
+	// The two configured durations in ms (0 = one hour).  CTO takes effect when the first Run starts
+	// (from then on every wait that the code bounds by CoordinatorTimeout uses it; the first attempt's
+	// own wait is over by then), TTO from the beginning.  Silent cases always use CTO = 40 ms.
+	CTO int `json:"cto_ms,omitempty"`
+	TTO int `json:"tto_ms,omitempty"`
+}
+
+const hourMs = 3600000
+
+func (c Case) ctoMs() int {
+	if c.Kind == "silent" {
+		return 40
+	}
+	if c.CTO > 0 {
+		return c.CTO
+	}
+	return hourMs
+}
+func (c Case) ttoMs() int {
+	if c.TTO > 0 {
+		return c.TTO
+	}
+	return hourMs
 }
 
 type RunObs struct {
@@ -197,10 +221,14 @@ func drive(c Case, bullyWait time.Duration) attempt {
 	if c.Kind == "fail" {
 		injected = build(*c.Err, t, self)
 	}
+	var co *tss.Coordinator
 	proc.Behave = func(n int, ctx context.Context) error {
 		if n > 0 || c.Kind != "fail" {
 			return nil
 		}
+		// ordered after the first attempt's own read of the field (start() evaluated it before this
+		// Run was spawned) and before handleError's reads (after this Run returned): no data race
+		co.CoordinatorTimeout = time.Duration(c.ctoMs()) * time.Millisecond
 		if c.Variant == "abort" {
 			<-ctx.Done()
 		}
@@ -210,12 +238,12 @@ func drive(c Case, bullyWait time.Duration) attempt {
 		PingWaitTime: time.Second, PingBackOff: time.Second, PingInterval: time.Second,
 		ElectionWaitTime: 5 * time.Millisecond, BullyWaitTime: bullyWait,
 	})
-	co := tss.NewCoordinator(h, cm, factory)
+	co = tss.NewCoordinator(h, cm, factory)
 	co.CoordinatorTimeout = time.Hour
-	co.TssTimeout = time.Hour
+	co.TssTimeout = time.Duration(c.ttoMs()) * time.Millisecond
 	co.InitiatePeriod = time.Hour
 	if c.Kind == "silent" {
-		co.CoordinatorTimeout = 40 * time.Millisecond
+		co.CoordinatorTimeout = time.Duration(c.ctoMs()) * time.Millisecond
 	}
 	genuine, _ := elector.NewCoordinatorElector(c.Sid).Coordinator(context.Background(), holders)
 	role1 := genuine == self // coordinator of the first attempt
@@ -289,8 +317,15 @@ func drive(c Case, bullyWait time.Duration) attempt {
 				d.Deliver(comm.TssReadyMsg, readyOrd, t.ids[s], nil)
 			}
 		default:
+			began := time.Now() // the wait exists: arrival times count from here (never earlier than the real beginning)
 			for _, m := range c.Msgs2 {
 				from := t.ids[m.From]
+				if wait := time.Until(began.Add(time.Duration(m.At) * time.Millisecond)); m.At > 0 && wait > 0 {
+					select {
+					case <-time.After(wait):
+					case <-done: // the session ended by itself before the message's time
+					}
+				}
 				switch m.Type {
 				case "initiate":
 					d.Deliver(comm.TssInitiateMsg, startOrd, from, []byte{})
@@ -592,6 +627,47 @@ func gen(r *vgen.Rng, tier string) []Case {
 				}
 			}
 		}
+		// how long a left-out relayer keeps waiting: CoordinatorTimeout << arrival of the replacement
+		// attempt's start << TssTimeout (it must still join), and arrival >> TssTimeout (it has given up)
+		for si, scenario := range []string{"late-start", "late-initiate-start", "two-initiators", "past-tss", "past-tss-after-initiate"} {
+			for ri, role1 := range []bool{true, false} {
+				if scenario[:4] == "past" && (si+ri+k)%2 == 0 {
+					continue // each costs TssTimeout of wall-clock: one role per scenario and round
+				}
+				variant := "immediate"
+				if (si+ri+k)%5 == 4 {
+					variant = "abort"
+				}
+				c := mk("subset", role1, procs[(si+ri+k)%2], false, variant)
+				var xs []int
+				for _, h := range c.Holders {
+					if h != c.Self {
+						xs = append(xs, h)
+					}
+				}
+				xs = shuffled(r, xs)
+				x, y := xs[0], xs[1]
+				sub := shuffled(r, c.Holders)[:c.T+1]
+				switch scenario {
+				case "late-start":
+					c.CTO, c.TTO = 40, 20000
+					c.Msgs2 = []Msg{{Type: "start", From: x, Params: sub, At: 400}}
+				case "late-initiate-start":
+					c.CTO, c.TTO = 40, 20000
+					c.Msgs2 = []Msg{{Type: "initiate", From: x, At: 250}, {Type: "start", From: x, Params: sub, At: 500}}
+				case "two-initiators":
+					c.CTO, c.TTO = 40, 20000
+					c.Msgs2 = []Msg{{Type: "initiate", From: x}, {Type: "initiate", From: y, At: 300}, {Type: "start", From: y, Params: sub, At: 600}}
+				case "past-tss":
+					c.TTO = 2000
+					c.Msgs2 = []Msg{{Type: "start", From: x, Params: sub, At: 6000}}
+				case "past-tss-after-initiate":
+					c.TTO = 2000
+					c.Msgs2 = []Msg{{Type: "initiate", From: x}, {Type: "start", From: x, Params: sub, At: 6000}}
+				}
+				out = append(out, c)
+			}
+		}
 		// silent coordinator
 		for i := 0; i < 6; i++ {
 			nh := r.Range(3, 6)
@@ -682,6 +758,8 @@ func coq(c Case, o Obs) string {
 			return "MFail " + P(m.From)
 		}
 	}
+	tmsg := func(m Msg) string { return vgen.Pair(vgen.N(uint64(m.At)), msg(m)) }
+	tm := "(mkTiming " + vgen.N(uint64(c.ctoMs())) + " " + vgen.N(uint64(c.ttoMs())) + ")"
 	winner := "None"
 	if c.Winner != nil {
 		winner = vgen.Some(P(*c.Winner))
@@ -692,8 +770,8 @@ func coq(c Case, o Obs) string {
 	}
 	obs := "(mkObs " + vgen.ListOf(o.Runs, func(r RunObs) string { return vgen.Pair(vgen.Bool(r.Coord), PL(r.Params)) }) + " " + elected + " " +
 		vgen.ListOf(o.Calls2, func(x CallObs) string { return vgen.Pair(PL(x.Ready), PL(x.Excluded)) }) + " " + PL(o.Ready2) + " " + vgen.N(uint64(o.Final)) + ")"
-	head := vgen.ListOf(o.Keys, vgen.N) + " " + PL(c.Holders) + " " + vgen.Z(int64(c.T)) + " " + P(c.Self) + " " + procKind(c.Proc) + " " + vgen.Bool(o.Retryable)
-	tail := winner + " " + PL(c.Ready2) + " " + vgen.ListOf(c.Msgs2, msg) + " " + obs
+	head := vgen.ListOf(o.Keys, vgen.N) + " " + tm + " " + PL(c.Holders) + " " + vgen.Z(int64(c.T)) + " " + P(c.Self) + " " + procKind(c.Proc) + " " + vgen.Bool(o.Retryable)
+	tail := winner + " " + PL(c.Ready2) + " " + vgen.ListOf(c.Msgs2, tmsg) + " " + obs
 	if c.Kind == "silent" {
 		return "Silent " + head + " " + tail
 	}
@@ -724,7 +802,17 @@ func kind(c Case) string {
 	if s == "" {
 		s = "+unknown"
 	}
-	return "fail:" + procKind(c.Proc) + ":" + s[1:] + ":" + c.Variant
+	timed := ""
+	for _, m := range c.Msgs2 {
+		if m.Type == "start" && m.At > 0 {
+			if m.At < c.ttoMs() {
+				timed = ":late-start"
+			} else {
+				timed = ":past-tss-timeout"
+			}
+		}
+	}
+	return "fail:" + procKind(c.Proc) + ":" + s[1:] + ":" + c.Variant + timed
 }
 
 func main() {
@@ -742,7 +830,8 @@ func main() {
 		Rule: "every failure cause (coordinator, communication, tss with culprits, tss with an undecodable culprit, subset, unknown, two causes joined) " +
 			"x {alone, joined with a timeout error on either side, nested joins, %w-wrapped} x {coordinator, other} role of the first attempt x " +
 			"{ECDSA signing, FROST signing, ECDSA/FROST keygen, ECDSA/FROST resharing} x {Run fails at once, Run fails after the coordinator's fail message aborted the attempt}, " +
-			"with and without an earlier candidate winning the bully election; plus silent-coordinator sessions (the implementation's own CoordinatorError); " +
+			"with and without an earlier candidate winning the bully election; plus left-out relayers with CoordinatorTimeout 40 ms << arrival of the replacement attempt's initiate/start messages (250..600 ms) << TssTimeout 20 s " +
+			"and with arrival 6 s >> TssTimeout 2 s; plus silent-coordinator sessions (the implementation's own CoordinatorError); " +
 			"distinct = distinct input JSON; non-trivial = the first attempt reached Run (or the coordinator stayed silent)",
 		ShardSize: 100,
 	})
